@@ -967,6 +967,43 @@ CLEANUP:
 	EG_RETURN (rval);
 }
 
+/* name for an entry of a list call that comes without one: the name
+ * ILLlib_findName would generate, kept clear of the explicit names that follow
+ * it in the same call as well (they are not in the symbol table yet) */
+static int list_call_name (
+	EGLPNUM_TYPENAME_ILLlpdata * qslp,
+	int forRow,
+	int id,
+	const char **names,
+	int from,
+	int num,
+	char buf[ILL_namebufsize])
+{
+	ILLsymboltab *tab = (forRow) ? &qslp->rowtab : &qslp->coltab;
+	char base[64];
+	int k, clash, t = 0, rval = 0;
+
+	rval = EGLPNUM_TYPENAME_ILLlib_findName (qslp, forRow, 0, id, buf);
+	CHECKRVALG (rval, CLEANUP);
+	if (strlen (buf) >= sizeof (base) - 16)
+		ILL_CLEANUP;
+	strcpy (base, buf);
+	for (;;)
+	{
+		clash = (t > 0 && ILLsymboltab_contains (tab, buf));
+		for (k = from; k < num && !clash; k++)
+		{
+			if (names[k] && strcmp (names[k], buf) == 0)
+				clash = 1;
+		}
+		if (!clash)
+			break;
+		snprintf (buf, ILL_namebufsize, "%s_%d", base, t++);
+	}
+CLEANUP:
+	EG_RETURN (rval);
+}
+
 int EGLPNUM_TYPENAME_ILLlib_addrows (
 	EGLPNUM_TYPENAME_lpinfo * lp,
 	EGLPNUM_TYPENAME_ILLlp_basis * B,
@@ -992,6 +1029,7 @@ int EGLPNUM_TYPENAME_ILLlib_addrows (
 	EGLPNUM_TYPE *bval = 0;
 	EGLPNUM_TYPE rng;
 	int badfactor = 0;
+	char gname[ILL_namebufsize];
 
 	EGLPNUM_TYPENAME_EGlpNumInitVar (rng);
 
@@ -1141,7 +1179,15 @@ int EGLPNUM_TYPENAME_ILLlib_addrows (
 			EGLPNUM_TYPENAME_EGlpNumCopy (rng, range[i]);
 		else
 			EGLPNUM_TYPENAME_EGlpNumZero (rng);
-		if (names)
+		if (names && names[i] == 0)
+		{
+			rval = list_call_name (lp->O, 1, lp->O->nrows, names, i + 1, num, gname);
+			CHECKRVALG (rval, CLEANUP);
+			rval = EGLPNUM_TYPENAME_ILLlib_addrow (lp, B, rmatcnt[i], rmatind + rmatbeg[i],
+														rmatval + rmatbeg[i], rhs[i], sense[i], rng,
+														gname);
+		}
+		else if (names)
 		{
 			rval = EGLPNUM_TYPENAME_ILLlib_addrow (lp, B, rmatcnt[i], rmatind + rmatbeg[i],
 														rmatval + rmatbeg[i], rhs[i], sense[i], rng,
@@ -2235,6 +2281,7 @@ int EGLPNUM_TYPENAME_ILLlib_addcols (
 {
 	int rval = 0;
 	int i, j;
+	char gname[ILL_namebufsize];
 
 	/* check every column first so that a bad one does not leave a prefix behind */
 	for (i = 0; lp && i < num; i++)
@@ -2274,7 +2321,15 @@ int EGLPNUM_TYPENAME_ILLlib_addcols (
 
 	for (i = 0; i < num; i++)
 	{
-		if (names)
+		if (names && names[i] == 0)
+		{
+			rval = list_call_name (lp->O, 0, lp->O->nstruct, names, i + 1, num, gname);
+			CHECKRVALG (rval, CLEANUP);
+			rval = EGLPNUM_TYPENAME_ILLlib_addcol (lp, B, cmatcnt[i], cmatind + cmatbeg[i],
+														cmatval + cmatbeg[i], obj[i], lower[i],
+														upper[i], gname, factorok);
+		}
+		else if (names)
 		{
 			rval = EGLPNUM_TYPENAME_ILLlib_addcol (lp, B, cmatcnt[i], cmatind + cmatbeg[i],
 														cmatval + cmatbeg[i], obj[i], lower[i],
